@@ -43,6 +43,58 @@ fn canon_sha(text: &[u8]) -> String {
 
 fn s(x: &str) -> String { x.to_string() }
 
+/// the result rows of a file written by `ber --output-file`
+fn parse_ber_file(path: &str) -> Vec<Value> {
+    let text = std::fs::read_to_string(path).unwrap_or_default();
+    text.lines().filter(|l| l.matches('|').count() == 10 && l.trim_start().chars().next().map(|c| c == '-' || c.is_ascii_digit()).unwrap_or(false) && !l.starts_with("--------"))
+        .map(|l| {
+            let f: Vec<&str> = l.split('|').map(|x| x.trim()).collect();
+            let num = |x: &str| x.parse::<f64>().unwrap_or(f64::NAN);
+            json!({"ebn0_c": (num(f[0]) * 100.0).round() as i64, "frames": num(f[1]) as i64, "berr": num(f[2]) as i64, "ferr": num(f[3]) as i64, "fdec": num(f[4]) as i64,
+                "ber_n": (num(f[5]) * 1e9).round().min(2.0e9) as i64, "fer_u": (num(f[6]) * 1e6).round() as i64})
+        }).collect()
+}
+
+/// A decoder "implementation" for the ber subcommand (its Args type is generic over the factory): at 40 dB the hard decision of the
+/// LLRs is the transmitted codeword; frame number q of each decoder gets 1 systematic bit error if q is even and 3 if q is odd, is
+/// reported as failed, and took 2 iterations. With an outer code correcting 2 errors EVERY frame is an LDPC frame error and every
+/// second frame an outer-code frame error.
+#[derive(Clone, Copy, Debug, PartialEq, Eq)]
+pub enum CliScript { Alt13 }
+impl clap::ValueEnum for CliScript {
+    fn value_variants<'a>() -> &'a [Self] { &[CliScript::Alt13] }
+    fn to_possible_value(&self) -> Option<clap::builder::PossibleValue> { Some(clap::builder::PossibleValue::new("Alt13")) }
+}
+impl std::fmt::Display for CliScript { fn fmt(&self, f: &mut std::fmt::Formatter<'_>) -> std::fmt::Result { write!(f, "Alt13") } }
+#[derive(Debug)]
+struct AltDecoder { k: usize, q: usize }
+impl ldpc_toolbox::decoder::LdpcDecoder for AltDecoder {
+    fn decode(&mut self, llrs: &[f64], _max_iterations: usize) -> Result<ldpc_toolbox::decoder::DecoderOutput, ldpc_toolbox::decoder::DecoderOutput> {
+        let mut w: Vec<u8> = llrs.iter().map(|&x| (x <= 0.0) as u8).collect();
+        let flips = if self.q % 2 == 0 { 1 } else { 3 };
+        for t in 0..flips.min(self.k) { let p = (self.q * 5 + t) % self.k; w[p] ^= 1; }
+        self.q += 1;
+        Err(ldpc_toolbox::decoder::DecoderOutput { codeword: w, iterations: 2 })
+    }
+}
+impl ldpc_toolbox::decoder::factory::DecoderFactory for CliScript {
+    fn build_decoder(&self, h: SparseMatrix) -> Box<dyn ldpc_toolbox::decoder::LdpcDecoder> { Box::new(AltDecoder { k: h.num_cols() - h.num_rows(), q: 0 }) }
+}
+
+/// child (`vh cliber C20 --in <dir> --out <result>`): the REAL ber subcommand code, in process, with the scripted factory
+pub fn cliber_child(a: &Args) {
+    use clap::Parser;
+    use ldpc_toolbox::cli::Run;
+    let dir = a.input.clone().expect("--in");
+    let argv: Vec<String> = serde_json::from_str(&std::fs::read_to_string(format!("{dir}/cliber-args.json")).unwrap()).unwrap();
+    let res = guarded(|| match ldpc_toolbox::cli::ber::Args::<CliScript>::try_parse_from(argv.iter()) {
+        Ok(args) => args.run().map_err(|e| e.to_string()),
+        Err(e) => Err(format!("clap: {e}")),
+    });
+    let v = match res { Ok(Ok(())) => json!({"o": "ok"}), Ok(Err(e)) => json!({"o": "error", "msg": e}), Err(m) => json!({"o": "panic", "msg": m}) };
+    std::fs::write(&a.out, v.to_string()).unwrap();
+}
+
 pub fn generate(a: &Args) {
     let mut out = Out::create(&a.out);
     let mut rng = Rng::new(a.seed ^ 0xC20);
@@ -286,16 +338,7 @@ pub fn generate(a: &Args) {
         if i % 4 == 3 { args.push(s("--interleaving=-3")); }
         if bch > 0 { args.push(s("--bch-max-errors")); args.push(bch.to_string()); args.push(s("--output-file-ldpc")); args.push(format!("ber{i}-ldpc.txt")); }
         let r = run_cli(&work, &args, 120);
-        let parse = |path: String| -> Vec<Value> {
-            let text = std::fs::read_to_string(path).unwrap_or_default();
-            text.lines().filter(|l| l.matches('|').count() == 10 && l.trim_start().chars().next().map(|c| c == '-' || c.is_ascii_digit()).unwrap_or(false) && !l.starts_with("--------"))
-                .map(|l| {
-                    let f: Vec<&str> = l.split('|').map(|x| x.trim()).collect();
-                    let num = |x: &str| x.parse::<f64>().unwrap_or(f64::NAN);
-                    json!({"ebn0_c": (num(f[0]) * 100.0).round() as i64, "frames": num(f[1]) as i64, "berr": num(f[2]) as i64, "ferr": num(f[3]) as i64, "fdec": num(f[4]) as i64,
-                        "ber_n": (num(f[5]) * 1e9).round().min(2.0e9) as i64, "fer_u": (num(f[6]) * 1e6).round() as i64})
-                }).collect()
-        };
+        let parse = |path: String| -> Vec<Value> { parse_ber_file(&path) };
         let mut ev = base_ev(&args, &r);
         ev["npoints"] = json!(npoints); ev["min_c"] = json!(min_c); ev["max_c"] = json!(max_c); ev["step_c"] = json!(step_c); ev["target"] = json!(target); ev["bch"] = json!(bch); ev["k"] = json!(ncw - r0);
         // the parameter block printed on stdout
@@ -310,6 +353,26 @@ pub fn generate(a: &Args) {
         ev["lines"] = json!(parse(format!("{work}/ber{i}.txt")));
         ev["lines_ldpc"] = json!(if bch > 0 { parse(format!("{work}/ber{i}-ldpc.txt")) } else { vec![] });
         out.ev("Ber", "ok", ev);
+    }
+    // ber with an outer code and BOTH output files, with scripted frame outcomes (the real subcommand code, generic over the factory)
+    for i in 0..(if th { 8 } else { 3 }) {
+        out.new_case();
+        let (ncw, r0) = [(12usize, 4usize), (24, 12), (18, 6)][i % 3];
+        let rows = systematic_code(ncw, r0, 900 + i as u64);
+        std::fs::write(format!("{work}/berin{i}.alist"), matrix(&rows, ncw).alist()).unwrap();
+        let npoints = 2 + i % 2;
+        let target = 4 + i as u64;
+        let argv: Vec<String> = vec![s("ber"), format!("{work}/berin{i}.alist"), s("--min-ebn0=40"), format!("--max-ebn0={}", 40 + npoints - 1), s("--step-ebn0=1"),
+            s("--frame-errors"), target.to_string(), s("--max-iter"), s("5"), s("--decoder"), s("Alt13"), s("--bch-max-errors"), s("2"),
+            s("--output-file"), format!("{work}/berin{i}.txt"), s("--output-file-ldpc"), format!("{work}/berin{i}-ldpc.txt")];
+        std::fs::write(format!("{work}/cliber-args.json"), serde_json::to_string(&argv).unwrap()).unwrap();
+        let resp = format!("{work}/cliber-{i}.out");
+        let exe = std::env::current_exe().unwrap();
+        let st = std::process::Command::new("timeout").arg("120").arg(exe).args(["cliber", "C20", "--in", &work, "--out", &resp])
+            .stdout(std::process::Stdio::null()).stderr(std::process::Stdio::null()).status();
+        let res: Value = std::fs::read_to_string(&resp).ok().and_then(|t| serde_json::from_str(&t).ok()).unwrap_or(json!({"o": "abort", "msg": format!("{st:?}")}));
+        out.ev("BerIn", res["o"].as_str().unwrap_or("abort"), json!({"argv": argv, "npoints": npoints, "target": target, "t": 2, "k": ncw - r0, "msg": res["msg"],
+            "lines": parse_ber_file(&format!("{work}/berin{i}.txt")), "lines_ldpc": parse_ber_file(&format!("{work}/berin{i}-ldpc.txt"))}));
     }
     if std::env::var("VH_KEEP").is_err() { let _ = std::fs::remove_dir_all(&work); }
     out.finish();
